@@ -568,6 +568,8 @@ def search(ctx, hints, broken):
     for k, fl in pool.map(_search_shard, args):
       n += k
       fails += fl
+    pool.close()
+    pool.join()
   for _ in range(ctx.n(300, 6000) * (2 if broken else 1)):
     n += 1
     r = oracle_loglik(loglik_numeric(ctx.rng))
